@@ -1021,7 +1021,23 @@ fn random_run(rng: &mut Rng, prof: &Profile, sink: &mut Sink<MidiEngine>) {
         }
     }
     let n_msgs = 10 + rng.usize(if prof.tier == Tier::Thorough { 150 } else { 90 });
-    let chord_cap = *rng.pick(&[1usize, 2, 4, 8, 31, 32, 40]);
+    let mut chord_cap = *rng.pick(&[1usize, 2, 4, 8, 31, 32, 40]);
+    // "mash" prologue: go straight to the edge of the 32-key list (29..33 keys down), then play around it
+    if matches!(focus, 4 | 5 | 6 | 17) && rng.chance(0.08) {
+        let k = rng.range(29, if focus == 6 || chaos { 34 } else { 32 }) as usize;
+        let ch = t.exec().listened();
+        let base = rng.below(90) as u8;
+        let mut keys: Vec<u8> = (0..k as u8).map(|i| base + i).collect();
+        for i in (1..keys.len()).rev() {
+            let j = rng.usize(i + 1);
+            keys.swap(i, j);
+        }
+        for n in keys {
+            let v = gen_vel(rng);
+            { let d__ = [n, v]; wire.send(rng, &mut t, 0x90 | ch, &d__) }
+        }
+        chord_cap = if focus == 6 || chaos { 40 } else { 32 };
+    }
     for _ in 0..n_msgs {
         if t.dead {
             break;
